@@ -41,7 +41,8 @@ Record lbpconsts := mkLbp {
   key_comma : string;            (* env.infixOps["comma"] used for a comma token *)
   key_dot : string;              (* env.infixOps["."] used for a dot symbol *)
   array_bp : Z;                  (* arrayOp.Bp *)
-  array_led : ledk               (* arrayOp.MunchLeft *)
+  array_led : ledk;              (* arrayOp.MunchLeft *)
+  sel_raw_max : nat              (* normalizeArraySelector: an index of at most this many tokens is not parsed *)
 }.
 
 (* constants of lowerGoFor / lowerRangeFor read from the source *)
